@@ -8,7 +8,10 @@
 #define BX_N 3
 #endif
 mop g_pool[POOL]; unsigned g_npool; bx_call g_calls[CMAX]; unsigned g_ncalls; int verif_raised;
-static mtree g_kids[BX_N]; static mtree T; static mlayout L; static mbindings g_root, g_bn; static muprefs g_up;
+static mtree g_kids[BX_N]; static mtree T; static mlayout L; static mbindings g_root; mbindings g_bn; muprefs g_up;
+_Bool g_has_local[NATOMS], g_has_upv[NATOMS]; mbinding g_local[NATOMS]; mupref g_upv[NATOMS]; midmap g_refd;
+unsigned g_nbinds; const mbindings *g_bind_scope; matom g_bind_name; const mop *g_bind_op; const mlayout *g_rdv_lay; unsigned long g_rdv_inner;
+int nondet_int(void); _Bool nondet_bool(void);
 static unsigned long L0, g_rdv;
 static mop *g_upstream;
 #define CHECK(c, msg) __CPROVER_assert(c, msg)
@@ -19,16 +22,24 @@ static mop *run(int tt, unsigned long n)
   T.m_tt = tt; T.m_children.d = g_kids; T.m_children.n = n;
   L.m_size = nondet_ulong(); __CPROVER_assume(L.m_size <= (1UL << 40)); L0 = L.m_size;
   g_bn.m_super = &g_root; g_root.m_super = 0; g_rdv = nondet_ulong();
-  g_npool = 0; g_ncalls = 0;
+  g_npool = 0; g_ncalls = 0; g_nbinds = 0; verif_raised = 0;
+#ifdef BX_ATOM
+  T.m_str = BX_ATOM;       /* which atom the name is is immaterial: the tables are symmetric in the atoms */
+#else
+  T.m_str = nondet_int(); __CPROVER_assume(T.m_str >= 0 && T.m_str < NATOMS);
+#endif
   g_upstream = new_op(K_UPSTREAM);
   mop *r = build_exec(&T, &L, g_rdv, g_upstream, &g_bn, &g_up);
-  CHECK(r != 0, "build_exec returns an operator");
+  CHECK(verif_raised != 0 || r != 0, "build_exec returns an operator unless it raises");
   CHECK(L.m_size >= L0, "the layout never shrinks (re-establishes the assumed contract of the recursive call)");
+  return r;
+}
+static void check_up_rdv(void)
+{
   for (unsigned i = 0; i < CMAX; ++i) if (i < g_ncalls) {
     CHECK(g_calls[i].up == &g_up, "sub-expressions are built with the up-value table of the enclosing block");
     CHECK(g_calls[i].rdv == g_rdv, "sub-expressions get the rendezvous slot of the enclosing block");
   }
-  return r;
 }
 /* origin o was created for call k in layout `lay`: the sub-expression is built ON that origin, in the same layout, after it */
 static void check_origin_of(mop *o, unsigned k, const mlayout *lay)
@@ -43,6 +54,7 @@ static void check_origin_of(mop *o, unsigned k, const mlayout *lay)
 void h_bx_ifelse(void)
 {
   mop *r = run(tree_type__IFELSE, 3);
+  check_up_rdv();
   CHECK(r->kind == K_IFELSE && r->a[0] == g_upstream, "IFELSE builds an op_ifelse on the current upstream");
   CHECK(g_ncalls == 3, "condition, then and else are built, each once");
   for (unsigned i = 0; i < 3; ++i) {
@@ -68,6 +80,7 @@ void h_bx_alt(void)
 {
   unsigned long n = nondet_ulong();
   mop *r = run(tree_type__ALT, n);
+  check_up_rdv();
   CHECK(r->kind == K_MERGE && r->a[0] == g_upstream && r->lay == &L, "ALT builds an op_merge on the current upstream");
   CHECK(g_ncalls == n && r->nbranches == n, "one branch per alternative");
   for (unsigned i = 0; i < BX_N; ++i) if (i < n) {
@@ -84,6 +97,7 @@ void h_bx_alt(void)
 void h_bx_scope(void)
 {
   mop *r = run(tree_type__SCOPE, 1);
+  check_up_rdv();
   CHECK(g_ncalls == 1 && g_calls[0].tree == &g_kids[0], "the body is built once");
   CHECK(r->kind == K_SUBCHAIN && r->call == 0, "SCOPE adds no operator");
   CHECK(g_calls[0].scope != &g_bn && g_calls[0].scope_super == &g_bn, "the body gets a scope of its own nested in the current one");
@@ -92,6 +106,7 @@ void h_bx_scope(void)
 
 static void check_one_sub(mop *r, int kind)
 {
+  check_up_rdv();
   CHECK(r->kind == kind && r->a[0] == g_upstream, "the operator is built on the current upstream");
   CHECK(g_ncalls == 1 && g_calls[0].tree == &g_kids[0], "the sub-expression is built once");
   CHECK(r->a[2] != 0 && r->a[2]->kind == K_SUBCHAIN && r->a[2]->call == 0, "the operator drives the sub-expression it was built for");
@@ -115,6 +130,7 @@ void h_bx_or(void)
 {
   unsigned long n = nondet_ulong();
   mop *r = run(tree_type__OR, n);
+  check_up_rdv();
   CHECK(r->kind == K_OR && r->a[0] == g_upstream && r->lay == &L, "|| builds an op_or on the current upstream");
   CHECK(g_ncalls == n && r->nbranches == n, "one branch per operand");
   for (unsigned i = 0; i < BX_N; ++i) if (i < n) {
@@ -128,6 +144,7 @@ void h_bx_cat(void)
 {
   unsigned long n = nondet_ulong();
   mop *r = run(tree_type__CAT, n);
+  check_up_rdv();
   CHECK(g_ncalls == n, "each element of a concatenation is built once");
   mop *prev = g_upstream;
   for (unsigned i = 0; i < BX_N; ++i) if (i < n) {
@@ -138,6 +155,90 @@ void h_bx_cat(void)
     prev = &g_pool[1 + i];
   }
   CHECK(r == prev, "the concatenation is its last element's operator");
+}
+
+/* ---- names (C03) ---- */
+static mop g_binders[NATOMS]; static mbuiltin g_builtins[2 * NATOMS];
+/* what the current scope chain and the enclosing block's up-value table know: anything, per name */
+static void choose_names(void)
+{
+  for (int a = 0; a < NATOMS; ++a) {
+    g_has_local[a] = nondet_bool(); g_has_upv[a] = nondet_bool();
+    g_local[a].m_bind = &g_binders[a]; g_local[a].m_bi = nondet_bool() ? &g_builtins[a] : 0;
+    g_upv[a].builtin = nondet_bool(); g_upv[a].bi = &g_builtins[NATOMS + a]; g_upv[a].id = (unsigned)nondet_int();
+  }
+}
+void h_bx_read(void)
+{
+  choose_names();
+  mop *r = run(tree_type__READ, 0);
+  matom n = T.m_str;
+  CHECK(g_ncalls == 0 && g_nbinds == 0, "a read builds no sub-expression and binds nothing");
+  if (g_has_local[n]) {          /* the scope chain wins over the up-value table: inner binders shadow outer ones */
+    CHECK(verif_raised == 0, "a bound name compiles");
+    if (g_local[n].m_bi) CHECK(r->kind == K_BUILTIN && r->bi == g_local[n].m_bi && r->a[0] == g_upstream, "a name bound to a builtin builds that builtin");
+    else {
+      CHECK(r->kind == K_APPLY && r->lay == &L && r->extra == 1, "reading a name applies its value if it is a block");
+      CHECK(r->a[0]->kind == K_READ && r->a[0]->a[0] == g_upstream && r->a[0]->a[1] == &g_binders[n], "the read is wired to the binder the scope chain resolves the name to");
+    }
+  } else if (g_has_upv[n]) {
+    CHECK(verif_raised == 0, "a name known as an up-value compiles");
+    if (g_upv[n].builtin) CHECK(r->kind == K_BUILTIN && r->bi == g_upv[n].bi && r->a[0] == g_upstream, "a builtin reached through the up-value table builds that builtin");
+    else {
+      CHECK(r->kind == K_APPLY && r->lay == &L && r->extra == 1, "reading an up-value applies it if it is a block");
+      CHECK(r->a[0]->kind == K_UPREAD && r->a[0]->a[0] == g_upstream && r->a[0]->extra == g_upv[n].id && r->a[0]->extra2 == g_rdv, "the up-value read uses the id the table gave this name and the block's rendezvous slot");
+    }
+  } else
+    CHECK(verif_raised != 0, "reading an unbound name is a compile-time error");
+}
+void h_bx_bind(void)
+{
+  mop *r = run(tree_type__BIND, 0);
+  CHECK(verif_raised == 0 && r->kind == K_BIND && r->a[0] == g_upstream && r->lay == &L, "a binder is built on the current upstream, its state in the current layout");
+  CHECK(g_nbinds == 1 && g_bind_scope == &g_bn && g_bind_name == T.m_str && g_bind_op == r, "exactly this name is bound, in the CURRENT scope, to exactly this binder");
+  CHECK(g_ncalls == 0, "no sub-expression");
+}
+void h_bx_block(void)
+{
+  choose_names();
+#ifdef BX_REFD
+  g_refd.n = BX_REFD;      /* number of up-values of the body: one job per value (keeps the operator pool index concrete) */
+#else
+  g_refd.n = nondet_ulong(); __CPROVER_assume(g_refd.n <= 3);
+#endif
+  for (unsigned k = 0; k < 3; ++k) {
+    g_refd.d[k].first = k; g_refd.d[k].second = (matom)k;   /* distinct names; which atoms they are is immaterial (the tables are symmetric in the atoms) */
+    if (k < g_refd.n) {           /* a name the body refers to as an up-value is visible at the block and is not a builtin (uprefs constructor / uprefs::find, C03 bind unit) */
+      matom a = g_refd.d[k].second;
+      __CPROVER_assume(g_has_local[a] ? g_local[a].m_bi == 0 : (g_has_upv[a] && !g_upv[a].builtin));
+    }
+  }
+  mop *r = run(tree_type__BLOCK, 1);
+  CHECK(verif_raised == 0 && r->kind == K_LEXCLOSURE, "a block builds an op_lex_closure");
+  CHECK(r->extra == g_refd.n, "the closure captures as many values as the body has up-values");
+  CHECK(g_ncalls == 1 && g_calls[0].tree == &g_kids[0], "the body is built once");
+  CHECK(r->a[2] != 0 && r->a[2]->kind == K_SUBCHAIN && r->a[2]->call == 0, "the closure holds the body");
+  CHECK(g_calls[0].lay != &L && g_rdv_lay == g_calls[0].lay, "the body has a layout of its own, with the rendezvous slot in it");
+  CHECK(g_calls[0].rdv == g_rdv_inner && r->extra2 == g_rdv_inner, "the body and the closure use the block's own rendezvous slot");
+  check_origin_of(r->a[1], 0, g_calls[0].lay);
+  CHECK(r->a[1]->lo > g_rdv_inner, "the rendezvous slot is not overlapped by the origin's state");
+  CHECK(r->lo >= g_calls[0].exit, "the closure is given the body's complete layout");
+  CHECK(g_calls[0].scope != &g_bn && g_calls[0].scope_super == 0, "the body is built in a fresh root scope: outer names reach it only as up-values");
+  CHECK(g_calls[0].up != &g_up && g_calls[0].up_from_bn == &g_bn && g_calls[0].up_from_up == &g_up, "the body's up-value table is built from the scope chain and table visible at the block");
+  /* the reads emitted in front of the closure: the operator nearest to the closure pushes up-value 0 (top of stack), and each
+     name is resolved as a direct read would resolve it: scope chain first, enclosing block's up-values second */
+  mop *cur = r->a[0];
+#if !defined(BX_REFD) || BX_REFD > 0
+  for (unsigned k = 0; k < 3; ++k) if (k < g_refd.n) {
+    matom a = g_refd.d[k].second;
+    if (g_has_local[a])
+      CHECK(cur->kind == K_READ && cur->a[1] == &g_binders[a], "captured name bound in the enclosing scope chain: read from ITS binder (inner binders shadow the enclosing block's up-values)");
+    else
+      CHECK(cur->kind == K_UPREAD && cur->extra == g_upv[a].id && cur->extra2 == g_rdv, "captured name that is an up-value of the enclosing block: passed along with the enclosing id and rendezvous slot");
+    cur = cur->a[0];
+  }
+#endif
+  CHECK(cur == g_upstream, "exactly one read per up-value, in id order from the closure upwards, on the current upstream");
 }
 #ifdef VERIF_CONTROL
 void h_bx_control(void) { mop *r = run(tree_type__SCOPE, 1); CHECK(g_calls[0].scope == &g_bn, "CONTROL: deliberately false (the body's scope is a new one)"); }
